@@ -69,14 +69,16 @@ class ColumnQuery(Query):
             return NullMatcher()
 
         creader = reader.column_reader(fieldname)
-        return ColumnMatcher(creader, comp)
+        return ColumnMatcher(creader, comp, reader.is_deleted)
 
 
 class ColumnMatcher(ConstantScoreMatcher):
-    def __init__(self, creader, condition):
+    def __init__(self, creader, condition, is_deleted=None):
         ConstantScoreMatcher.__init__(self)
         self.creader = creader
         self.condition = condition
+        # (the column has a value - the default - for deleted documents too)
+        self.is_deleted = is_deleted or (lambda docnum: False)
         self._i = 0
         self._find_next()
 
@@ -84,7 +86,9 @@ class ColumnMatcher(ConstantScoreMatcher):
         condition = self.condition
         creader = self.creader
 
-        while self._i < len(creader) and not condition(creader[self._i]):
+        is_deleted = self.is_deleted
+        while self._i < len(creader) and (is_deleted(self._i)
+                                          or not condition(creader[self._i])):
             self._i += 1
 
     def is_active(self):
@@ -105,8 +109,9 @@ class ColumnMatcher(ConstantScoreMatcher):
 
     def all_ids(self):
         condition = self.condition
+        is_deleted = self.is_deleted
         for docnum, v in enumerate(self.creader):
-            if condition(v):
+            if condition(v) and not is_deleted(docnum):
                 yield docnum
 
     def supports(self, astype):
